@@ -57,6 +57,10 @@ THEOREMS = {
         "api_is_visible_params_in_order", "routeC_self", "routeC_step", "bufferify_routes",
         "defaultClones_prefix", "default_arity_clones", "generic_members", "emitted_generic_iff",
         "genericLoop_targets", "generic_routing_local",
+        "native_array_pass_through", "native_out_allocatable", "copyElems_vector", "vector_in_buf", "vector_out_buf",
+        "vector_out_allocatable", "vector_inout_buf", "vector_inout_allocatable", "vector_result_buf",
+        "vector_result_allocatable", "ptrptr_out", "result_pointer", "result_allocatable", "char_array_in",
+        "context_kinds_have_no_cfi_entry", "result_call_clause",
     ]]
 }
 
@@ -175,6 +179,10 @@ def gen_description(r, idx):
                                          ([{"decl": "(const int *values +rank(2))", "function_suffix": "_2d"}] if r.random() < 0.3 else [])})
     if ngs:
         feats.append("%d-generic-functions-scalar/array%s" % (ngs, ""))
+    if cxx and r.random() < 0.4:
+        decls.append({"decl": "void gdef(%sdouble v, int n = 1, int m = 2)" % r.choice(["", "const std::string &s, ", "const int *values, "]),
+                      "fortran_generic": [dict(g) for g in GEN_FD]})
+        feats.append("generic*defaults")
     if cxx and r.random() < 0.5:
         decls.append({"decl": "int dstr(const std::string &s, int n = 2, bool f = true)"})
         decls.append({"decl": "void dchr(char *out +intent(out)+charlen(20), const char *in, int n = 1)"})
